@@ -19,7 +19,7 @@ RULE = ("(a) reneging: NetSpecs with logged reneging distributions per class and
         "baulk <=> u < p, a baulker is at the exit at once with one baulk record showing that population, others are admitted.  "
         "Non-trivial: (a) >= 1 renege and >= 1 patient customer served; (b) >= 1 baulk and >= 1 admission under a baulking function.")
 ASSUMPTIONS = ["the pass-through installed as ciw.arrival_node.random returns the real random.random() value (behaviour unchanged)"]
-WALL = {"quick": 50, "thorough": 540}
+WALL = {"quick": 150, "thorough": 540}
 
 REN_ALLOWED = ["schedule", "capacity", "priorities", "reneging", "jockeying", "batching", "cc_after", "cc_waiting", "discipline",
                "routing_objects", "self_loops", "zero_service", "inf", "system_capacity", "server_priority", "slotted"]
@@ -82,7 +82,7 @@ def subchecks(tier):
                       plans=("max_time", "max_customers"), horizon=(5.0, 14.0), budget=600, load="heavy")
     return [
         system_subcheck("reneging", ren, lambda spec: [Patience(spec)], nt_ren, classes=cl_ren, obs=False, log=True,
-                        n={"quick": 2400, "thorough": 40000}, rule="logged patience vs renege/service records; overdue monitor"),
-        SubCheck("baulking", baulk_execute_factory(bprof), strategy=S.netspec(bprof), n={"quick": 2000, "thorough": 30000},
+                        n={"quick": 7200, "thorough": 40000}, rule="logged patience vs renege/service records; overdue monitor"),
+        SubCheck("baulking", baulk_execute_factory(bprof), strategy=S.netspec(bprof), n={"quick": 6000, "thorough": 30000},
                  kind="system", rule="baulk <=> u < p(true population); baulk record; admission otherwise"),
     ]
